@@ -293,7 +293,25 @@ fn noise(rng: &mut ChaCha8Rng) -> String {
 
 fn nested(rng: &mut ChaCha8Rng) -> (String, &'static str) {
     let depth = rng.gen_range(2..=64);
-    match rng.gen_range(0..10) {
+    match rng.gen_range(0..12) {
+        10 => {
+            // min / max blocks nested in each other, with a variable at the bottom or constants only
+            let d = depth.min(64);
+            let leaf = ["x", "2", "x + 1"][rng.gen_range(0..3)];
+            let mut body = leaf.to_string();
+            for _ in 0..d {
+                let name = ["max", "min"][rng.gen_range(0..2)];
+                body = if rng.gen_bool(0.5) { format!("{name} {{ {body}, 1 }}") } else { format!("{name} {{ 0, {body} }}") };
+            }
+            (format!("min {body}\ns.t.\n    x >= 0\ndefine\n    x as Real(0, 1)\n"), "nested-extremes")
+        }
+        11 => {
+            // blocks and scoped blocks inside the ends of a range and inside an index
+            let end = ["max { 2, 3 }", "sum(j in 0..2) { 7 }", "abs { -3 }", "min { 4, len(A) }", "len(A)"][rng.gen_range(0..5)];
+            let start = ["0", "min { 0, 1 }", "len(A) - 2"][rng.gen_range(0..3)];
+            let body = ["x_i", "sum(k in 0..max { 1, 2 }) { x_k }", "A[min { i, 1 }] * x_i"][rng.gen_range(0..3)];
+            (format!("min sum(i in {start}..{end}) {{ {body} }}\ns.t.\n    x_i >= 0 for i in 0..8\nwhere\n    let A = [1, 2]\ndefine\n    x_i as Real(0, 1) for i in 0..8\n"), "blocks-in-range-ends")
+        }
         9 => {
             // ragged array literals: elements of different kinds and depths in one array, in every order
             fn ragged(rng: &mut ChaCha8Rng, depth: usize) -> String {
